@@ -538,3 +538,178 @@ def c17_fix_dev(cs, kind, label=""):
             if [cs["shape"], label, kind] in f.get("instances", []):
                 return ["param_insertion_textual"]
     return []
+
+
+# ------------------------------------------------------------------------------------------- C18
+SC = ["function", "class", "module", "package", "session"]
+CONFTEST_18 = "import pytest\n\n" + "".join(
+    '\n@pytest.fixture(scope="%s")\ndef c_%s():\n    return 1\n' % (s, n)
+    for s, n in zip(SC, ["fun", "cls", "mod", "pkg", "ses"]))
+TP_18 = 'import pytest\n\n\n@pytest.fixture\ndef tp_fx():\n    return 1\n\n\n@pytest.fixture(scope="session")\ndef tp_ses():\n    return 2\n'
+
+
+def c18_doc(c):
+    """-> (text, cursor line (0-based), cursor col)"""
+    role, kind, scope = c["role"], c["kind"], c["scope"]
+    declared = sorted(c["declared"] or [])
+    head = ["import pytest", "", 'pytestmark = pytest.mark.usefixtures("c_fun")', "", "",
+            "@pytest.fixture", "def local_fx():", "    return 1", "", ""]
+    if kind != "fixture":
+        head += ['@pytest.fixture(scope="session")', "def local_ses():", "    return 2", "", ""]
+    name = {"test": "test_e", "fixture": "local_ses", "helper": "helper_e"}[kind]
+    deco = ['@pytest.fixture(scope="%s")' % SC[scope]] if kind == "fixture" else []
+    params = ", ".join(declared)
+    tail = ["", "", "x_after = 1", ""]
+    cur = None
+    if role in ("module_level",):
+        body = deco + ["def %s(%s):" % (name, params), "    value = 1", "    other = 2"]
+        lines = head + body + tail
+        cur = (0, 3)
+    elif role == "pytestmark_line":
+        body = deco + ["def %s(%s):" % (name, params), "    value = 1"]
+        lines = head + body + tail
+        cur = (2, lines[2].index('"') + 1)
+    elif role == "after_body_module_level":
+        body = deco + ["def %s(%s):" % (name, params), "    value = 1"]
+        lines = head + body + tail
+        cur = (len(head) + len(body) + 2, 3)
+    elif role == "fixture_decorator":
+        lines = head + ["def %s(%s):" % (name, params), "    value = 1"] + tail
+        cur = (5, 5)
+    elif role in ("usefixtures_decorator", "parametrize_decorator", "def_line", "body_stmt", "body_blank"):
+        marks = ['@pytest.mark.usefixtures("c_fun")', '@pytest.mark.parametrize("c_mod", [1], indirect=True)']
+        body = marks + deco + ["def %s(%s):" % (name, params), "    value = 1", "", "    other = 2"]
+        lines = head + body + tail
+        b0 = len(head)
+        d = b0 + len(marks) + len(deco)
+        cur = {"usefixtures_decorator": (b0, lines[b0].index('"') + 1), "parametrize_decorator": (b0 + 1, lines[b0 + 1].index('"') + 1),
+               "def_line": (d, lines[d].index("(") + 1), "body_stmt": (d + 1, len(lines[d + 1])), "body_blank": (d + 2, 0)}[role]
+    elif role in ("sig_continuation", "sig_end"):
+        body = deco + ["def %s(" % name] + ["    %s," % p for p in declared] + ["    ", "):", "    value = 1"]
+        lines = head + body + tail
+        d = len(head) + len(deco)
+        cur = (d + 1 + len(declared), 4) if role == "sig_continuation" else (d + 2 + len(declared), 0)
+    elif role in ("class_header", "method_def", "method_body"):
+        ps = ", ".join(["self"] + declared)
+        body = ["class TestK:"] + ["    " + x for x in deco] + ["    def %s(%s):" % (name, ps), "        value = 1", "        other = 2"]
+        lines = head + body + tail
+        b0 = len(head)
+        d = b0 + 1 + len(deco)
+        cur = {"class_header": (b0, 6), "method_def": (d, lines[d].index("(") + 1), "method_body": (d + 1, len(lines[d + 1]))}[role]
+    elif role == "nested_class_method_body":
+        ps = ", ".join(["self"] + declared)
+        body = ["class TestO:", "    class TestI:"] + ["        " + x for x in deco] + \
+               ["        def %s(%s):" % (name, ps), "            value = 1", "            other = 2"]
+        lines = head + body + tail
+        d = len(head) + 2 + len(deco)
+        cur = (d + 1, len(lines[d + 1]))
+    elif role.startswith("inc_"):
+        if role == "inc_open_paren":
+            last = "def %s(" % name
+        elif role == "inc_after_comma":
+            last = "def %s(%s" % (name, "".join(p + ", " for p in declared))
+        elif role == "inc_no_colon":
+            last = "def %s(%s)" % (name, params)
+        elif role == "inc_no_body":
+            last = "def %s(%s):" % (name, params)
+        else:
+            last = "@pytest.mark.usefixtures("
+        extra = ["def %s(%s):" % (name, params), "    pass"] if role == "inc_usefixtures_open" else []
+        lines = head + deco + [last] + extra
+        li = len(head) + len(deco)
+        col = len(last) if role != "inc_no_colon" and role != "inc_no_body" else last.index("(") + 1
+        cur = (li, col)
+        return "\n".join(lines) + "\n", cur[0], cur[1]
+    return "\n".join(lines) + "\n", cur[0], cur[1]
+
+
+def check_c18(tier):
+    V = C.Verdict("C18", tier, "model_checking")
+    meta = C.run_tlc("Completion", "Completion.cfg", workers=4, timeout=3600)
+    if not meta["ok"]:
+        raise C.ToolError("TLC on Completion failed: %s" % meta["errors"])
+    C.build_server()
+    cases = list(C.tlc_cases(meta))
+    base = os.path.join(C.BUILD, "ws", "c18-%d" % os.getpid())
+    shutil.rmtree(base, ignore_errors=True)
+
+    def session(job):
+        n, c = job
+        root = os.path.join(base, "s%d" % n)
+        sp = os.path.join(root, ".venv", "lib", "python3.11", "site-packages")
+        os.makedirs(os.path.join(sp, "tp"), exist_ok=True)
+        os.makedirs(os.path.join(sp, "tp-1.0.dist-info"), exist_ok=True)
+        with open(os.path.join(sp, "tp-1.0.dist-info", "entry_points.txt"), "w") as fh:
+            fh.write("[pytest11]\ntp = tp.plugin\n")
+        open(os.path.join(sp, "tp", "__init__.py"), "w").close()
+        with open(os.path.join(sp, "tp", "plugin.py"), "w") as fh:
+            fh.write(TP_18)
+        with open(os.path.join(root, "conftest.py"), "w") as fh:
+            fh.write(CONFTEST_18)
+        text, line, col = c18_doc(c)
+        tpath = os.path.join(root, "test_e.py")
+        srv = lsp.Server()
+        try:
+            srv.initialize(root)
+            if c["role"].startswith("inc_"):
+                # incomplete forms arise while typing: the document was valid a moment ago
+                valid_c = dict(c, role="def_line")
+                srv.did_open(tpath, c18_doc(valid_c)[0])
+                srv.did_change(tpath, text)
+            else:
+                srv.did_open(tpath, text)
+            comp = srv.pos_request("textDocument/completion", tpath, line, col)
+            items = comp if isinstance(comp, list) else (comp or {}).get("items", []) if comp else []
+            return {"items": [{"label": i["label"], "sortText": i.get("sortText"), "edits": bool(i.get("additionalTextEdits"))} for i in items],
+                    "text": text, "line": line, "col": col, "alive": srv.alive()}
+        except (lsp.ServerDied, lsp.Timeout) as e:
+            return {"error": str(e), "text": text, "line": line, "col": col}
+        finally:
+            srv.close()
+            shutil.rmtree(root, ignore_errors=True)
+
+    results = lsp.run_parallel(list(enumerate(cases)), session, workers=8)
+    for c, r in zip(cases, results):
+        V.count()
+        V.nontriv(json.dumps({k: c[k] for k in ("role", "kind", "scope", "declared")}, sort_keys=True))
+        if r is None or "__exception__" in r:
+            raise C.ToolError("LSP session failed: %r" % (r,))
+        ex = {"role": c["role"], "kind": c["kind"], "scope": c["scope"], "declared": c["declared"],
+              "cursor": [r.get("line"), r.get("col")], "text": r.get("text")}
+        if "error" in r:
+            V.violation(dict(ex, error=r["error"]), "server died or did not answer a completion request")
+            continue
+        fixture_names = set(c["expect"]["order"])
+        labels = [i["label"] for i in r["items"] if i["label"] in fixture_names or i["label"].startswith(("c_", "tp_", "local_"))]
+        want = set(c["expect"]["offered"] or [])
+        got = set(labels)
+        e2 = dict(ex, offered=sorted(got), expected=sorted(want), context=c["expect"]["ctx"])
+        if len(labels) != len(got):
+            V.violation(e2, "a fixture name is offered twice")
+        if got != want:
+            V.classify(c18_dev(c, got, want), e2, "completion does not offer exactly the usable fixtures at this cursor line")
+            continue
+        for i in r["items"]:
+            if i["label"] in want and c["expect"]["ctx"] in ("signature", "body"):
+                if not i["sortText"] or i["sortText"][0] != str(c["expect"]["order"][i["label"]]):
+                    V.violation(dict(e2, item=i), "completion sort order does not rank same file < conftest < plugin < third-party")
+        if c["expect"]["ctx"] == "body" and want and not all(i["edits"] for i in r["items"] if i["label"] in want):
+            V.violation(e2, "a body completion does not carry the parameter edit")
+    shutil.rmtree(base, ignore_errors=True)
+    V.sample({"role": cases[0]["role"], "kind": cases[0]["kind"], "expect": cases[0]["expect"], "text": c18_doc(cases[0])[0]})
+    cov = {"states": meta["distinct"], "transitions": meta["transitions"], "traces_validated_against_impl": len(cases),
+           "exhaustive": True, "tlc": {"module": "Completion", "wall_s": meta["wall_s"]}}
+    return V.finish(
+        coverage_extra=cov,
+        rule="cursor-line role (module level, fixture / usefixtures / parametrize decorator, pytestmark, def line, signature "
+             "continuation / end, body statement, blank line in body, class header, method def / body, nested-class method body, "
+             "after the body; incomplete: open paren, after comma, no colon, no body, unclosed usefixtures) x function kind {test, "
+             "fixture of each scope, helper} x declared parameter sets; workspace with conftest fixtures of all five scopes, "
+             "same-file fixtures and third-party fixtures (venv entry point); every case is one completion request to the real "
+             "binary; offered labels, uniqueness, sortText rank and the presence of the parameter edit are compared",
+        assumptions=["a blank line AFTER the last statement of a body is not judged (statement: inside signature or body)",
+                     "workspace-plugin rank (2) is covered by C14's classification, not materialised here"])
+
+
+def c18_dev(c, got, want):
+    return []
